@@ -144,6 +144,9 @@ def run(ctx: Ctx) -> None:
     wit1 = cfg.must_pass(en[0], [cfg.exit], dels, skip_labels=("exc",))
     wit2 = cfg.must_pass(en[0], [cfg.exit], has_call("self.priority.remove_stream"), skip_labels=("exc",))
     ctx.check("C09.R5", w, "end_stream -> del buffer -> remove_stream", wit1 is None and wit2 is None, "after END_STREAM the buffer/tree entry survives (a second END_STREAM would follow): " + explain(cfg, wit1 or wit2), ends[0])
+    ctests = [n.id for n in cfg.nodes if n.kind == "test" and "self.stream_buffers[stream_id].complete" in norm(n.ast.test)]
+    wit = cfg.must_pass(cfg.entry, [cfg.exit], lambda n: n.id in ctests, skip_labels=("exc", "uncaught", "catch")) if ctests else [cfg.entry]
+    ctx.check("C09.R5", w, "completion is tested on every normal path of _send_data (END_STREAM needs no flow-control credit)", wit is None, "a path through _send_data (e.g. an early return when the window is exhausted) skips the completion test: END_STREAM for an already drained buffer waits for a WINDOW_UPDATE that may never come: " + explain(cfg, wit), sd)
     comp = repo.func(M, "StreamBuffer.complete")
     rets = [n for n in walk_local(comp) if isinstance(n, ast.Return)]
     ok = len(rets) == 1
